@@ -68,4 +68,20 @@ T1_FILES = {
     'Proofs/GenSorterProofs.v': ['C03'],
     'Proofs/GenGrouperProofs.v': ['C04', 'C05'],
     'Properties/T1.v': T1_PROPS,
+    'Proofs/GenFilterClauseProofs.v': ['C02', 'C10', 'C17'],
+    'Properties/T1Filter.v': ['C02', 'C10', 'C17'],
+    'Proofs/GenFastCsvProofs.v': ['C12', 'C15'],
+    'Properties/T1Csv.v': ['C12', 'C15'],
+    'Proofs/GenStrSerProofs.v': ['C14', 'C18', 'C06', 'C09'],
+    'Properties/T1Strings.v': ['C14', 'C18', 'C06', 'C09'],
+    'Proofs/GenRyuTextProofs.v': ['C16', 'C14'],
+    'Properties/T1RyuText.v': ['C16', 'C14'],
+}
+# the files of translation theorems whose statements count as obligations of a property (re-checked with it)
+T1_PROP_FILES = {
+    'Properties/T1.v': T1_PROPS,
+    'Properties/T1Filter.v': ['C02', 'C10', 'C17'],
+    'Properties/T1Csv.v': ['C12', 'C15'],
+    'Properties/T1Strings.v': ['C14', 'C18', 'C06', 'C09'],
+    'Properties/T1RyuText.v': ['C16', 'C14'],
 }
